@@ -86,6 +86,9 @@ fn decode_connect_packet(src: &mut Bytes) -> Result<Packet, DecodeError> {
     } else {
         None
     };
+    // payload must end where the frame ends
+    ensure!(!src.has_remaining(), DecodeError::InvalidLength);
+
     Ok(Connect {
         clean_session: flags.contains(ConnectFlags::CLEAN_START),
         keep_alive,
